@@ -41,6 +41,14 @@ type pFilterSpec struct {
 	DropAfter map[string]int `json:"drop_after,omitempty"`
 }
 
+// pOutFault: the first Times (default 1) writes to the output that contain Match fail with EAGAIN, or - with DelayUs -
+// take that long before the bytes arrive.
+type pOutFault struct {
+	Match   string `json:"match"`
+	Times   int    `json:"times,omitempty"`
+	DelayUs int    `json:"delay_us,omitempty"`
+}
+
 type pOpts struct {
 	Alt          bool         `json:"alt,omitempty"`
 	Mouse        string       `json:"mouse,omitempty"`
@@ -101,8 +109,10 @@ type pScenario struct {
 	Gomaxprocs int              `json:"gomaxprocs,omitempty"`
 	ParallelOK bool             `json:"parallel_ok,omitempty"`
 	Isolate    bool             `json:"isolate,omitempty"` // run in a child harness process
+	Ctty       bool             `json:"ctty,omitempty"`    // with isolate: the child gets a pseudo-terminal as its controlling terminal (/dev/tty exists there)
 	Child      bool             `json:"child,omitempty"`   // set by runIsolated: this process runs exactly this one scenario
-	Writes     bool             `json:"writes,omitempty"`  // report the time and size of every Write call on the output
+	OutFault   *pOutFault       `json:"out_fault,omitempty"`
+	Writes     bool             `json:"writes,omitempty"` // report the time and size of every Write call on the output
 	Opts       pOpts            `json:"opts"`
 	Input      pInput           `json:"input"`
 	Ctx        bool             `json:"ctx,omitempty"`
